@@ -222,10 +222,11 @@ def data_lines(payload):
 def run_specs(ctx, binary, specs, name):
     built = [dataq.make_scenario(s) for s in specs]
     results = session.run_sessions(ctx, binary, [b[0] for b in built], keep=True)
-    mlines, meta = [], []
+    mlines, meta, streams_of = [], [], {}
     for si, (spec, (sc, plan, txs), r) in enumerate(zip(specs, built, results)):
         wins = dataq.parse_windows(r.dir)
         streams = dataq.streams_after_data(sc)
+        streams_of[si] = streams
         hi = 0
         for k, w in enumerate(wins):
             hand = None
@@ -247,7 +248,7 @@ def run_specs(ctx, binary, specs, name):
         m = dataq.parse_model(mo)
         paylen = len(tx.payload) if tx is not None and tx.payload is not None else 0
         # what must be left for the command loop: the commands that follow this payload
-        d = dataq.compare_window(w, m, paylen, hand, None, True)
+        d = dataq.compare_window(w, m, paylen, hand, dataq.expected_rest(streams_of[si][k], paylen) if k < len(streams_of[si]) else None, True)
         ctx.cov['evaluations'] += 1
         if d:
             dis.append((case, 'tx %d: %s' % (k, d), mo[:200]))
